@@ -36,7 +36,9 @@ func rowWitnesses(r m.AtomRow) []witness {
 		if len(r.Sat) >= 2 {
 			ws = append(ws, witness{vals: r.Sat, truth: true})
 		}
-		ws = append(ws, witness{vals: append(append([]m.Lit{}, r.Sat...), r.Viol[0]), truth: false})
+		if len(r.Viol) > 0 {
+			ws = append(ws, witness{vals: append(append([]m.Lit{}, r.Sat...), r.Viol[0]), truth: false})
+		}
 	case "count":
 		for c := 0; c <= 4; c++ {
 			var tv bool
@@ -187,6 +189,7 @@ func decideTableRow(c tableCase) ev.Verdict {
 		return false
 	}
 	plain, neg, dn := rep.FocusSet("plain"), rep.FocusSet("negated"), rep.FocusSet("doubleneg")
+	knownHits := 0
 	for wi, w := range ws {
 		i := witnessNode[wi]
 		id := g.Nodes[i].ID
@@ -194,6 +197,11 @@ func decideTableRow(c tableCase) ev.Verdict {
 		tv, ok := m.EvalAtom(a, g, g.Nodes[i])
 		if !ok || tv != w.truth {
 			return ev.Verdict{Discard: true, Detail: fmt.Sprintf("table/evaluator disagree on row %d witness %d", c.Row, i)}
+		}
+		if r.Finding != "" && w.truth && in(plain, id) && hasFractional(w.vals) {
+			// the recorded defect: a fractional number in the data never equals the same number in a list argument
+			knownHits++
+			continue
 		}
 		if in(plain, id) == w.truth {
 			return ev.Violation("c01-atom-table:"+r.Kind, "row %d %s %s: values %v/%v should make the constraint %v, validator reported=%v\n%s", c.Row, r.Kind, argString(r), keys(w.vals), keys(w.vals2), w.truth, in(plain, id), text)
@@ -207,11 +215,23 @@ func decideTableRow(c tableCase) ev.Verdict {
 			}
 		}
 	}
+	if knownHits > 0 {
+		return ev.Violation(r.Finding, "row %d %s %s: %d satisfying witnesses with a fractional number are reported (as_string renders numbers with format_int, the list argument with six decimals)\n%s", c.Row, r.Kind, argString(r), knownHits, text)
+	}
 	lab := "table:" + r.Kind
 	if a.Via != "" {
 		lab += ":via-path"
 	}
 	return ev.Verdict{OK: true, NonTrivial: true, Labels: []string{lab}, Obs: map[string]int{"table_witnesses": len(ws)}}
+}
+
+func hasFractional(ls []m.Lit) bool {
+	for _, l := range ls {
+		if l.K == "f" && l.F != float64(int64(l.F)) {
+			return true
+		}
+	}
+	return false
 }
 
 func argString(r m.AtomRow) string {
